@@ -234,10 +234,13 @@ pub mod fs {
         pub uninterp spec fn spec_len(&self) -> nat;
         #[verifier::external_body]
         pub fn len(&self) -> (r: u64) ensures r == self.spec_len() { unimplemented!() }
+        /// (world argument accepted and ignored, see walkdir::FileType::is_dir)
         #[verifier::external_body]
-        pub fn is_dir(&self) -> bool { unimplemented!() }
+        pub fn is_dir(&self, Tracked(w): Tracked<&World>) -> bool { unimplemented!() }
         #[verifier::external_body]
-        pub fn is_file(&self) -> bool { unimplemented!() }
+        pub fn is_file(&self, Tracked(w): Tracked<&World>) -> bool { unimplemented!() }
+        #[verifier::external_body]
+        pub fn modified(&self) -> (r: io::Result<crate::shims::std::time::SystemTime>) { unimplemented!() }
     }
     /// stat(2) (follows symbolic links)
     #[verifier::external_body]
